@@ -17,7 +17,8 @@ RULE = _base.SPACE_TEXT + (
 globals().update(_base.std(monitors.c11, drain=True))
 
 JOB = {'dur': [0, 2, 3, 'never'], 'cdelay': [1], 'sd': [1, 3],
-       'forever': [True], 'out': ['raise'], 'critical': [True]}
+       'forever': [True], 'out': ['raise'], 'critical': [True],
+       'k': ['coro']}
 
 # forced configurations of the nested scheduler 'n' (and 'm') that stretch
 # each phase of its run over virtual time
@@ -28,11 +29,14 @@ STRETCH = [
      ('x', 'dur', 3), ('p', 'cdelay', 1), ('p', 'dur', 3)],
     [('x', 'sd', 3), ('y', 'sd', 1), ('n', 'sdt', 2), ('p', 'sd', 3),
      ('m', 'sdt', 2)],
+    [('x', 'sd', 3), ('x', 'k', 'coro'), ('n', 'sdt', 0), ('p', 'sd', 3),
+     ('p', 'k', 'coro'), ('m', 'sdt', 0), ('a', 'sd', 3), ('a', 'k', 'coro'),
+     ('top', 'sdt', 0)],
     [('x', 'out', 'raise'), ('x', 'critical', True), ('x', 'dur', 2),
      ('y', 'dur', 3), ('y', 'cdelay', 1)],
 ]
 INNER = {'dur': [0, 2, 3], 'cdelay': [1], 'sd': [1, 3], 'out': ['raise'],
-         'critical': [True]}
+         'critical': [True], 'k': ['coro']}
 NEST = {'timeout': [1, 2], 'sdt': [0, 2], 'window': [1], 'critical': [True]}
 
 
